@@ -77,8 +77,8 @@ func (e *Enc) callCommon(c *ssa.CallCommon, pos token.Pos, hint string, rt types
 		preState := e.cur.clone()
 		wn, an := e.fresh("W"), e.fresh("A")
 		e.declare(wn, "Int")
-		e.declare(an, "Int")
-		e.body = append(e.body, fmt.Sprintf("(assert (>= %s %s))", wn, e.cur.W), fmt.Sprintf("(assert (>= %s %s))", an, e.cur.A))
+		e.declare(an, wideSort)
+		e.body = append(e.body, fmt.Sprintf("(assert (>= %s %s))", wn, e.cur.W), fmt.Sprintf("(assert (bvuge %s %s))", an, e.cur.A))
 		resVars := map[string]Term{}
 		var res []Term
 		for i, t := range rts {
@@ -174,9 +174,9 @@ func (e *Enc) applyContract(ct *Contract, guard string, vars map[string]Term, rt
 			wNew = e.fresh("W")
 			e.declare(wNew, "Int")
 			aNew = e.fresh("A")
-			e.declare(aNew, "Int")
+			e.declare(aNew, wideSort)
 			e.body = append(e.body, fmt.Sprintf("(assert (>= %s %s))", wNew, e.cur.W))
-			e.body = append(e.body, fmt.Sprintf("(assert (>= %s %s))", aNew, e.cur.A))
+			e.body = append(e.body, fmt.Sprintf("(assert (bvuge %s %s))", aNew, e.cur.A))
 		} else {
 			wNew, aNew = e.cur.W, e.cur.A
 		}
@@ -228,6 +228,15 @@ func (e *Enc) applyContract(ct *Contract, guard string, vars map[string]Term, rt
 			}
 		}
 		res = append(res, r)
+	}
+	if cfn := w.fnByKey[ct.Key]; cfn != nil && cfn.Signature.Results() != nil {
+		for i := 0; i < cfn.Signature.Results().Len() && i < len(res); i++ {
+			if nr := cfn.Signature.Results().At(i).Name(); nr != "" && nr != "_" {
+				if _, clash := nv[nr]; !clash {
+					nv[nr] = res[i]
+				}
+			}
+		}
 	}
 	envPost := &Env{w: w, pkg: calleePkg, vars: nv, pre: pre, cur: e.cur, W0: pre.W, decl: e.declare, useMem: e.useMem, ghost: e.ghost}
 	e.applyGhostSets(ct, envPost, guard)
@@ -490,19 +499,29 @@ func (e *Enc) appendBuiltin(c *ssa.CallCommon, pos token.Pos) Term {
 	baseN := e.define(e.fresh("apbase"), "Int", base)
 	offN := e.define(e.fresh("apoff"), bv64, off)
 	oldInner := sel(mt, "(s-arr "+s.S+")")
-	// constraints on resArr
-	q := e.fresh("qi")
-	// prefix
-	e.assume(fmt.Sprintf("(forall ((%s %s)) (=> (and (bvsle #x0000000000000000 %s) (bvslt %s (s-len %s))) (= (select %s (eidx %s %s)) (select %s (eidx (s-off %s) %s)))))",
-		q, bv64, q, q, s.S, resArr, offN, q, oldInner, s.S, q))
+	// constraints on resArr, stated over absolute positions (q ranges over array positions) so
+	// that every read of the result array triggers them
+	q := e.fresh("qa")
+	zero := "#x0000000000000000"
+	sOff, sLen := "(s-off "+s.S+")", "(s-len "+s.S+")"
+	var appended string // value at absolute position q inside the appended window
 	if !isStr {
 		srcInner := sel(mt, tarr)
-		e.assume(fmt.Sprintf("(forall ((%s %s)) (=> (and (bvsle #x0000000000000000 %s) (bvslt %s %s)) (= (select %s (eidx %s (bvadd (s-len %s) %s))) (select %s (eidx %s %s)))))",
-			q, bv64, q, q, tlen, resArr, offN, s.S, q, srcInner, toff, q))
+		appended = sel(srcInner, "(bvadd "+toff+" (bvsub (bvsub "+q+" "+offN+") "+sLen+"))")
+	}
+	inPrefix := and("(bvsle "+offN+" "+q+")", "(bvslt "+q+" (bvadd "+offN+" "+sLen+"))")
+	inWindow := and("(bvsle (bvadd "+offN+" "+sLen+") "+q+")", "(bvslt "+q+" (bvadd "+offN+" "+newLen+"))")
+	// prefix: element k of s
+	e.assume(fmt.Sprintf("(forall ((%s %s)) (! (=> %s (= (select %s %s) (select %s (bvadd %s (bvsub %s %s))))) :pattern ((select %s %s))))",
+		q, bv64, inPrefix, resArr, q, oldInner, sOff, q, offN, resArr, q))
+	if !isStr {
+		e.assume(fmt.Sprintf("(forall ((%s %s)) (! (=> %s (= (select %s %s) %s)) :pattern ((select %s %s))))",
+			q, bv64, inWindow, resArr, q, appended, resArr, q))
 	}
 	// in place: everything outside the appended window is unchanged
-	e.assume(fmt.Sprintf("(=> %s (forall ((%s %s)) (=> (not (and (bvsle (bvadd (s-off %s) (s-len %s)) %s) (bvslt %s (bvadd (s-off %s) %s)))) (= (select %s %s) (select %s %s)))))",
-		fits, q, bv64, s.S, s.S, q, q, s.S, newLen, resArr, q, oldInner, q))
+	e.assume(fmt.Sprintf("(=> %s (forall ((%s %s)) (! (=> (not %s) (= (select %s %s) (select %s %s))) :pattern ((select %s %s)))))",
+		fits, q, bv64, inWindow, resArr, q, oldInner, q, resArr, q))
+	_ = zero
 	if e.c.ModGiven {
 		// an in-place append writes the caller-visible backing array
 		saved := e.curReach
@@ -515,7 +534,9 @@ func (e *Enc) appendBuiltin(c *ssa.CallCommon, pos token.Pos) Term {
 	capN := fmt.Sprintf("(ite %s (s-cap %s) %s)", fits, s.S, newCap)
 	res := e.define(e.fresh("append"), "Slice", fmt.Sprintf("(mk-slice %s %s %s %s)", baseN, offN, newLen, capN))
 	// ghost allocation: amortised 2x the appended bytes when growing
-	e.cur.A = e.define(e.fresh("A"), "Int", fmt.Sprintf("(+ %s (ite %s 0 (* %d (bv2nat %s))))", e.cur.A, fits, 2*sizeOf(st.Elem()), newLen))
+	// ghost allocation: amortised accounting -- every appended element is charged a constant factor
+	// (8x covers Go's growth policy down to its 1.25 factor), independently of whether this call grows
+	e.cur.A = e.define(e.fresh("A"), wideSort, fmt.Sprintf("(bvadd %s (bvmul %s ((_ zero_extend 64) %s)))", e.cur.A, wideLit(8*sizeOf(st.Elem())), tlen))
 	return Term{res, "Slice", c.Args[0].Type()}
 }
 
@@ -913,8 +934,8 @@ func (e *Enc) invoke(c *ssa.CallCommon, pos token.Pos, hint string) []Term {
 	wn := e.fresh("W")
 	e.declare(wn, "Int")
 	an := e.fresh("A")
-	e.declare(an, "Int")
-	e.body = append(e.body, fmt.Sprintf("(assert (>= %s %s))", wn, e.cur.W), fmt.Sprintf("(assert (>= %s %s))", an, e.cur.A))
+	e.declare(an, wideSort)
+	e.body = append(e.body, fmt.Sprintf("(assert (>= %s %s))", wn, e.cur.W), fmt.Sprintf("(assert (bvuge %s %s))", an, e.cur.A))
 	for i, t := range rts {
 		r := e.havocVal(nil, t, c.Method.Name()+"_r")
 		e.body = append(e.body, assertAll(w.reg.wf(r.S, t, wn))...)
